@@ -11,7 +11,7 @@ from ..world import World
 
 ID = "C06"
 LEVEL = "exploration"
-BUDGET = {"quick": {"n": 500, "wall_s": 400}, "thorough": {"n": 30000, "wall_s": 3300}}
+BUDGET = {"quick": {"n": 1500, "wall_s": 400}, "thorough": {"n": 30000, "wall_s": 3300}}
 RULE = ("per case: 1..4 roots holding 1..4 content families with hard-link sets inside and across roots and symlinks "
         "to files inside/outside the scanned set and to directories; flags from {--rf-over k, --rf-under k, --unique} x "
         "{-H} x {--isolate} x {-S} x {-L}; every root spelled in a way drawn from {absolute, relative, ./x, x/, x/../x, "
